@@ -384,6 +384,15 @@ LOGGING = ('on_update_error', 'update_received', 'keepalive_received', 'send_ope
            'notification_received', 'on_connection_lost', 'on_connection_failed')
 
 
+def _agent_path_or_symptom(addr):
+    try:
+        return report.fresh(agent_path, addr)
+    except Exception as e:      # noqa
+        # the scripted history (refused attempt, two sessions) cannot even be played with this spelling of the address: on the
+        # unchanged tree it can with every spelling, so this is the agent's doing (e.g. the handler raising on every record)
+        return ['the two scripted sessions cannot be played with this spelling of the peer address: %s' % str(e).splitlines()[-1][:160]], 0
+
+
 def agent_path(addr):
     """the log behind a real agent: BGPPeering / FSM / BGP built by prepare_twisted_service() with the DefaultHandler, peer
     address given in several textual forms; every callback the agent makes must be one record"""
@@ -566,7 +575,7 @@ def run(tier, seed):
     explore.close_pool()
     agent_events = 0
     for addr in PEER_ADDRS:
-        sym, ncalls = report.fresh(agent_path, addr)
+        sym, ncalls = _agent_path_or_symptom(addr)
         agent_events += ncalls
         for s_ in sym:
             col.add('C20|agent-path|%s|%s' % ('ipv4' if ':' not in addr else 'ipv6', s_), {'agent_path': addr}, {'peer_address': addr, 'callbacks': ncalls})
@@ -607,7 +616,7 @@ def replay(path):
     d = json.load(open(path))
     w = d['witness']
     if w.get('agent_path'):
-        a, b = report.twice(agent_path, w['agent_path'])
+        a, b = _agent_path_or_symptom(w['agent_path']), _agent_path_or_symptom(w['agent_path'])
         if a != b:
             print('HARNESS-ERROR: replay is not deterministic')
             return 2
